@@ -166,7 +166,14 @@ pub mod bincode {
             r matches Ok(t) ==> T::dec(old(rd).rest().take(final(rd).spec_pos() - old(rd).spec_pos())) == Some(t)
                 && final(rd).rest() == old(rd).rest().skip(final(rd).spec_pos() - old(rd).spec_pos())
                 && final(rd).spec_pos() - old(rd).spec_pos() <= old(rd).rest().len(),
+            // T11: the error is UnexpectedEof exactly when the remaining bytes do not start with a complete encoding
+            // (the encoding is self-delimiting); any other error says nothing about what is in the file
+            (r matches Err(e) && is_eof(e)) ==> !starts_with_record::<T>(old(rd).rest()),
     { unimplemented!() }
+    pub open spec fn is_eof(e: Error) -> bool { e.spec_ref() matches ErrorKind::Io(ioe) && ioe.spec_kind() is UnexpectedEof }
+    pub open spec fn starts_with_record<T: DeserializeOwned>(rest: Seq<u8>) -> bool {
+        exists |n: int| 0 <= n <= rest.len() && (#[trigger] T::dec(rest.take(n))) is Some
+    }
 }
 
 /// bufio.rs (R-stub-body for its trait impls; bounded Kani stand-in on the verbatim file): position-tracking
